@@ -99,7 +99,9 @@ def flow_col_atol(scn, ref, times):
                 q = float(fl.loc[times, l['id']].abs().min()) if len(times) else 0.0
             except Exception:  # noqa
                 q = 0.0
-            out[l['id']] = 1e-6 + 1e-5 / max(refmodel.pipe_dhdq(l, max(q, 1e-4)), 1e-4)
+            # around zero flow every q with R*q^1.852 below the head tolerance is 'converged'
+            near_zero = (1e-5 / max(refmodel.pipe_resistance(l), 1e-9)) ** (1.0 / refmodel.HW_EXP)
+            out[l['id']] = 1e-6 + max(1e-5 / max(refmodel.pipe_dhdq(l, max(q, 1e-4)), 1e-4), near_zero)
         else:
             out[l['id']] = 1e-5
     return out
